@@ -91,6 +91,9 @@ impl Prover for Vampire {
     type Report = VampireReport;
 
     fn instances(&self) -> usize {
+        #[cfg(anthem_verif)]
+        use crate::verif::sim::num_cpus;
+
         if self.instances == 0 {
             std::cmp::max(num_cpus::get() / self.cores(), 1)
         } else {
@@ -99,6 +102,9 @@ impl Prover for Vampire {
     }
 
     fn cores(&self) -> usize {
+        #[cfg(anthem_verif)]
+        use crate::verif::sim::num_cpus;
+
         if self.cores == 0 {
             num_cpus::get()
         } else {
@@ -107,6 +113,9 @@ impl Prover for Vampire {
     }
 
     fn prove(&self, problem: Problem) -> Result<Self::Report, Self::Error> {
+        #[cfg(anthem_verif)]
+        use crate::verif::sim::{Command, Instant, Stdio};
+
         let start_time = Instant::now();
 
         let mut child = Command::new("vampire")
